@@ -368,7 +368,7 @@ def r07_9(run, model):
 MONO_TY_LEDGER = {("EPrim", "ty"): "primitive literal types contain no type parameter"}
 
 
-def r07_8(run, model):
+def r07_8(run, model, only=None):
     run.rule("R07.8", "every type written into a specialised node is substituted: in mono_expr each `ty` / `for_ty` field of a rebuilt MonoExpr is "
                       "`subst_ty(..)`, a local bound to it, or the type of an already specialised child")
     f = model.fn("mono_expr", MONO)
@@ -378,7 +378,7 @@ def r07_8(run, model):
             lets[l["pat"]["name"]] = l["init"]
     n = 0
     for st in S.find(f.body, "Struct"):
-        if st["segs"][0] != "MonoExpr":
+        if st["segs"][0] != "MonoExpr" or (only is not None and st["segs"][-1] not in only):
             continue
         lets = _ScopedLets(f, st)
         for fl in st["fields"]:
@@ -387,19 +387,50 @@ def r07_8(run, model):
             n += 1
             e = fl["expr"]
             t = S.norm_ws(run.facts.text(MONO, e["sp"]))
-            ok = "subst_ty(" in t or ".get_ty()" in t
-            if not ok and e["k"] == "Path" and len(e["segs"]) == 1 and e["segs"][0] in lets:
-                it = S.norm_ws(run.facts.text(MONO, lets[e["segs"][0]]["sp"]))
-                ok = "subst_ty(" in it or ".get_ty()" in it or "inst_" in it
-                if not ok:
-                    # built from already specialised pieces (e.g. Ty::TFunc { params: param_tys, ret_ty: new_ty })
-                    pieces = [i for i in S.idents(lets[e["segs"][0]]) if i in lets]
-                    ok = bool(pieces) and all(re.search(r"subst_ty\(|\.get_ty\(\)", S.norm_ws(run.facts.text(MONO, lets[i]["sp"]))) for i in pieces)
+
+            def substituted(x, depth=0):
+                """every way `x` can be evaluated yields a type that went through the substitution"""
+                k = x["k"]
+                if depth > 6:
+                    return False
+                if k in ("Call", "MethodCall"):
+                    cn = S.callee_name(x) or ""
+                    if re.search(r"subst|^inst_|^get_ty$", cn):
+                        return True
+                    if k == "Call" and cn == "new" and x["args"]:
+                        return substituted(x["args"][0], depth + 1)
+                    if k == "MethodCall":
+                        if any(y["k"] in ("Call", "MethodCall") and re.search(r"subst|^inst_|^get_ty$", S.callee_name(y) or "") for y in S.walk(x)):
+                            return True     # an adaptor chain whose closure substitutes / reads the type of a specialised child
+                        r = x
+                        while r["k"] == "MethodCall":
+                            r = r["recv"]
+                        return substituted(r, depth + 1)
+                    return False
+                if k == "Path":
+                    if len(x["segs"]) == 1:
+                        return x["segs"][0] in lets and substituted(lets[x["segs"][0]], depth + 1)
+                    return True      # a constant type
+                if k == "Field":
+                    return substituted(x["base"], depth + 1)
+                if k in ("Ref", "Unary"):
+                    return substituted(x["expr"], depth + 1) if x.get("expr") else False
+                if k == "Match":
+                    return bool(x["arms"]) and all(substituted(a["body"], depth + 1) for a in x["arms"])
+                if k == "If":
+                    return x.get("else") is not None and substituted(x["then"], depth + 1) and substituted(x["else"], depth + 1)
+                if k == "Block":
+                    last = x["stmts"][-1] if x["stmts"] else None
+                    return last is not None and last["k"] == "ExprStmt" and substituted(last["expr"], depth + 1)
+                if k == "Struct":
+                    return all(substituted(f_["expr"], depth + 1) for f_ in x["fields"])
+                return False
+            ok = substituted(e)
             led = MONO_TY_LEDGER.get((st["segs"][-1], fl["name"]))
             run.ob("R07.8", f"mono_expr|{st['segs'][-1]}.{fl['name']} is substituted" + ("" if ok or led else f" (`{t[:24]}`)"), ok or led is not None, site(MONO, st["sp"]),
                    f"{fl['name']}: {t[:50]}" + (f"; ledger: {led}" if led and not ok else ""),
                    witness="fn pair[T](x: T, y: T) { let arr = [x, y]; .. }: the literal keeps type [T; 2]; the emitted Go declares `var arr [2]T`")
-    run.floor("type fields of rebuilt nodes in mono_expr", n, 20)
+    run.floor("type fields of rebuilt nodes in mono_expr", n, 20 if only is None else len(only))
 
 
 def r07_4(run, model):
@@ -612,6 +643,93 @@ def r07_13(run, model):
     run.floor("ensure_instance calls in mono_expr", n, 2)
 
 
+def r07_16(run, model):
+    run.rule("R07.16", "a generic definition is instantiated before its nested applications are named: where TypeMono builds the fields or "
+                       "payloads of an instance, the type handed to collapse_type_apps is the result of subst_ty on the definition's type "
+                       "(collapsing first names `Box[T]` as the instance `Box__T`; the parameter is then out of the substitution's reach)")
+    f_sub = "subst_ty"
+    n = 0
+    for f in model.fns(MONO):
+        if f.body is None or f.impl != "TypeMono":
+            continue
+        coll = [c for c in S.walk(f.body) if c["k"] == "MethodCall" and c["method"] == "collapse_type_apps" and S.is_path(c["recv"], "self")]
+        subs = [c for c in S.walk(f.body) if c["k"] == "Call" and S.callee_name(c) == f_sub]
+        if not coll or not subs:
+            continue
+        lets = {}
+        for l in S.find(f.body, "Local"):
+            if l["pat"]["k"] == "PIdent" and l.get("init") is not None:
+                lets.setdefault(l["pat"]["name"], []).append(l["init"])
+
+        def from_subst(e, depth=0):
+            if any(x["k"] == "Call" and S.callee_name(x) == f_sub for x in S.walk(e)):
+                return True
+            return depth < 3 and any(from_subst(i, depth + 1) for nm in S.idents(e) for i in lets.get(nm, []) if i is not e)
+
+        def from_collapse(e, depth=0):
+            if any(x["k"] == "MethodCall" and x["method"] == "collapse_type_apps" for x in S.walk(e)):
+                return True
+            return depth < 3 and any(from_collapse(i, depth + 1) for nm in S.idents(e) for i in lets.get(nm, []) if i is not e)
+        for c in coll:
+            n += 1
+            ok = bool(c["args"]) and from_subst(c["args"][0])
+            run.ob("R07.16", f"{f.name}|collapse #{sum(1 for x in coll if (x['sp'][0], x['sp'][1]) <= (c['sp'][0], c['sp'][1]))} works on a substituted type", ok, site(MONO, c["sp"]),
+                   f"argument `{S.norm_ws(run.facts.text(MONO, c['args'][0]['sp']))[:40]}` " + ("derives from subst_ty" if ok else "does not derive from subst_ty"),
+                   witness="struct Wrap[T] { inner: Box[T] }: Wrap__int32 and Wrap__string both get the field `inner Box__T`, a type that is never declared")
+        for c in subs:
+            bad = bool(c["args"]) and from_collapse(c["args"][0])
+            if bad:
+                run.ob("R07.16", f"{f.name}|substitution applied to an already collapsed type", False, site(MONO, c["sp"]),
+                       f"argument `{S.norm_ws(run.facts.text(MONO, c['args'][0]['sp']))[:40]}` derives from collapse_type_apps")
+    run.floor("collapses of instantiated definition types", n, 2)
+
+
+def r07_17(run, model):
+    run.rule("R07.17", "type parameters are replaced simultaneously: no call of a parameter-substitution function (one that takes a map from "
+                       "parameter names to types) feeds its own result back in from one round of a loop to the next with a map built inside "
+                       "that loop - replacing the parameters one at a time lets an argument that mentions a later parameter's name be "
+                       "replaced again (`Pair[B, A]` read through `struct Pair[A, B]`)")
+    n = 0
+    seq = {}
+    for rel in ("crates/compiler/src/typer/unify.rs", "crates/compiler/src/typer/check.rs", "crates/compiler/src/typer/toplevel.rs",
+                "crates/compiler/src/typer/util.rs", MONO):
+        substs = {}
+        for g in model.fns(rel):
+            ps = [p for p in g.params() if not p["self"]]
+            idx = [i for i, p in enumerate(ps) if re.search(r"HashMap<String,(tast::)?Ty>|&Subst\b", (p["ty"] or "").replace(" ", ""))]
+            if idx and g.body is not None and re.search(r"(^|::)Ty$", (g.node.get("ret") or "").replace(" ", "")):
+                substs[g.name] = idx[0]
+        for f in model.fns(rel):
+            if f.body is None:
+                continue
+            par = None
+            for c in S.walk(f.body):
+                if c["k"] not in ("Call", "MethodCall") or S.callee_name(c) not in substs or S.callee_name(c) == f.name:
+                    continue
+                n += 1
+                if par is None:
+                    par = S.Parents(f.body)
+                loop = next((a for a in par.ancestors(c) if a["k"] in ("For", "While", "Loop")), None)
+                bad = False
+                why = "not in a loop"
+                if loop is not None:
+                    mi = substs[S.callee_name(c)]
+                    marg = c["args"][mi] if len(c["args"]) > mi else None
+                    inside = marg is not None and (any(x["k"] in ("Call", "Macro") for x in S.walk(marg)) or any(
+                        S.span_contains(loop["sp"], l["sp"]) for l in S.find(f.body, "Local") if set(S.pat_bindings(l["pat"])) & S.idents(marg)))
+                    others = [a for i, a in enumerate(c["args"]) if i != mi]
+                    carried = {a["left"]["segs"][0] for a in S.walk(loop) if a["k"] == "Assign" and a["left"]["k"] == "Path" and len(a["left"]["segs"]) == 1 and
+                               S.span_contains(a["right"]["sp"], c["sp"])}
+                    fed = any(S.idents(o) & carried for o in others)
+                    bad = inside and fed
+                    why = f"in a loop; map built inside it: {inside}; result fed back: {fed}"
+                seq[(f.name, S.callee_name(c))] = seq.get((f.name, S.callee_name(c)), 0) + 1
+                run.ob("R07.17", f"{f.name}|call #{seq[(f.name, S.callee_name(c))]} of {S.callee_name(c)} replaces all parameters at once", not bad, site(rel, c["sp"]), why,
+                       witness="struct Pair[A, B] { fst: A, snd: B } fn both[B: Show, A: Show](p: Pair[B, A]): p.fst is typed A instead of B; the "
+                               "instance at B = int32, A = string calls the string impl on the int32 field")
+    run.floor("calls of parameter-substitution functions", n, 27)
+
+
 def r07_15(run, model):
     run.rule("R07.15", "no generic application survives in what is emitted: besides function signatures and bodies, mono collapses the field "
                        "types of the definitions it keeps (non-generic structs and enums are emitted as they stand) - in `mono`, outside "
@@ -648,6 +766,8 @@ def run(run, model):
     run.try_rule(r07_12, model)
     run.try_rule(r07_13, model)
     run.try_rule(r07_15, model)
+    run.try_rule(r07_16, model)
+    run.try_rule(r07_17, model)
     from rules import c19 as _c19
     run.rule("R07.14", "two instances of a generic enum never share a Go type name for a variant (shared with C19 R19.8: the clash count ranges over the specialised enums that are emitted)")
     run.try_rule(_c19.r19_8, model)
